@@ -12,6 +12,8 @@ bound to the targets in the order given), other components unchanged, unit trace
 families, the targets' block is held as a density matrix, WF(post)."""
 import itertools
 
+from fractions import Fraction
+
 from symx import checks, ref
 from harness import common as cm
 
@@ -41,6 +43,8 @@ def cases(tier):
                 fams = ["sym2", "damp"]
                 if tier == "quick" and not (lid.startswith("C1-pos") or lid.startswith("E1") or lid in ("S-V", "S-L")):
                     fams = ["sym2"]
+                if lid.startswith("C1-pos") or lid.startswith("C0") or lid in ("S-V", "E1-PF-M", "E1-FP-V"):
+                    fams = fams + ["mix3"]  # three operators (all acting non-trivially)
                 for fam in fams:
                     out.append({"id": f"{kind}/{lid}/{entry}/{fam}", "kind": kind, "world": w, "targets": [t],
                                 "entry": entry, "fam": fam})
@@ -77,6 +81,8 @@ def cases(tier):
         for entry in entries:
             for pr in pairs:
                 fams = ["mixU"] + (["sym2"] if thorough and not lid.endswith("-M") else [])
+                if lid.startswith("C-ps") or lid == "C-own":
+                    fams = fams + ["mix3"]
                 for fam in fams:
                     out.append({"id": f"two/{lid}/{entry}/{','.join(pr)}/{fam}", "kind": "two", "world": w,
                                 "targets": list(pr), "entry": entry, "fam": fam})
@@ -120,6 +126,18 @@ def make_operators(B, case, dims):
             M = ref.zeros((D, D), like)
             M[k, k] = ref.const(1, like)
             Ks.append(M)
+        return [B.const_array(K) if B.mode == "real" else B.jnp.ndarray(K) for K in Ks], Ks, True
+    if fam == "mix3":
+        # K0 = cos t U0, K1 = 0.6 sin t U1, K2 = 0.8 sin t U2 with concrete unitaries: complete for every t
+        t = B.angle("t", 1)
+        c, s = B.cos_sin(t)
+        if D == 4:
+            Us = [_cx(B), ref.kron(cm.pol_gate(B, "H"), cm.pol_gate(B, "S")), ref.kron(cm.pol_gate(B, "Z"), cm.pol_gate(B, "X"))]
+        elif D == 2:
+            Us = [cm.identity(B, 2), cm.pol_gate(B, "X"), cm.pol_gate(B, "S") @ cm.pol_gate(B, "H")]
+        else:
+            raise ValueError("mix3 needs total dimension 2 or 4")
+        Ks = [Us[0] * c, Us[1] * (s * ref.const(Fraction(3, 5), like)), Us[2] * (s * ref.const(Fraction(4, 5), like))]
         return [B.const_array(K) if B.mode == "real" else B.jnp.ndarray(K) for K in Ks], Ks, True
     if fam == "mixU":
         assert len(dims) == 2 and D == 4
